@@ -845,7 +845,9 @@ func (c *Client) SetCommonBasicAuth(username, password string) *Client {
 //
 // See `Request.SetDigestAuth`
 func (c *Client) SetCommonDigestAuth(username, password string) *Client {
-	c.OnAfterResponse(handleDigestAuthFunc(username, password))
+	// runs before the middlewares that consume the response (unmarshal, download): they must
+	// see the response of the re-sent request, not the 401 it replaces
+	c.afterResponse = append([]ResponseMiddleware{handleDigestAuthFunc(username, password)}, c.afterResponse...)
 	return c
 }
 
